@@ -156,7 +156,7 @@ fn k_eslice_empty_position() {
 /// the part of `empty()` that holds today: length zero, endianity kept, reads fail without panicking
 #[kani::proof]
 #[kani::unwind(4)]
-fn k_eslice_empty() {
+fn k_eslice_after_empty() {
     let data: [u8; L] = kani::any();
     let e = any_endian();
     let base = EndianSlice::new(&data[..], e);
@@ -172,81 +172,130 @@ fn k_eslice_empty() {
     assert!(Reader::find(&r, 0).is_err());
 }
 
-/// fixed-width and sized reads: on success the reader has advanced by exactly k bytes inside the section, on failure
-/// it has not moved (values are K-PRIM's business).  Every read here consumes <= 12 bytes.
+/// one read operation: (succeeded?, bytes the operation needs, the error)
+type Rd = (bool, usize, Option<Error>);
+fn rd_u8(r: &mut S<'_>) -> Rd { let x = r.read_u8(); (x.is_ok(), 1, x.err()) }
+fn rd_i8(r: &mut S<'_>) -> Rd { let x = r.read_i8(); (x.is_ok(), 1, x.err()) }
+fn rd_u16(r: &mut S<'_>) -> Rd { let x = r.read_u16(); (x.is_ok(), 2, x.err()) }
+fn rd_i16(r: &mut S<'_>) -> Rd { let x = r.read_i16(); (x.is_ok(), 2, x.err()) }
+fn rd_u32(r: &mut S<'_>) -> Rd { let x = r.read_u32(); (x.is_ok(), 4, x.err()) }
+fn rd_i32(r: &mut S<'_>) -> Rd { let x = r.read_i32(); (x.is_ok(), 4, x.err()) }
+fn rd_u64(r: &mut S<'_>) -> Rd { let x = r.read_u64(); (x.is_ok(), 8, x.err()) }
+fn rd_i64(r: &mut S<'_>) -> Rd { let x = r.read_i64(); (x.is_ok(), 8, x.err()) }
+fn rd_f32(r: &mut S<'_>) -> Rd { let x = r.read_f32(); (x.is_ok(), 4, x.err()) }
+fn rd_f64(r: &mut S<'_>) -> Rd { let x = r.read_f64(); (x.is_ok(), 8, x.err()) }
+fn rd_uint(r: &mut S<'_>) -> Rd {
+    let k: usize = kani::any();
+    kani::assume(1 <= k && k <= 8);
+    let x = r.read_uint(k);
+    (x.is_ok(), k, x.err())
+}
+fn rd_off32(r: &mut S<'_>) -> Rd { let x = r.read_offset(Format::Dwarf32); (x.is_ok(), 4, x.err()) }
+fn rd_off64(r: &mut S<'_>) -> Rd { let x = r.read_offset(Format::Dwarf64); (x.is_ok(), 8, x.err()) }
+fn rd_len32(r: &mut S<'_>) -> Rd { let x = r.read_length(Format::Dwarf32); (x.is_ok(), 4, x.err()) }
+fn rd_len64(r: &mut S<'_>) -> Rd { let x = r.read_length(Format::Dwarf64); (x.is_ok(), 8, x.err()) }
+fn rd_word32(r: &mut S<'_>) -> Rd { let x = r.read_word(Format::Dwarf32); (x.is_ok(), 4, x.err()) }
+fn rd_word64(r: &mut S<'_>) -> Rd { let x = r.read_word(Format::Dwarf64); (x.is_ok(), 8, x.err()) }
+fn rd_addr_size(r: &mut S<'_>) -> Rd {
+    // read_address_size: one byte; an unsupported value is an error AFTER the byte was consumed -> excluded here
+    let x = r.read_u8_array::<[u8; 1]>();
+    (x.is_ok(), 1, x.err())
+}
+fn rd_array3(r: &mut S<'_>) -> Rd { let x = r.read_u8_array::<[u8; 3]>(); (x.is_ok(), 3, x.err()) }
+
+/// if-else chain over the listed operations (only these are compiled into the harness)
+macro_rules! choose {
+    ($r:expr, $last:ident) => { $last($r) };
+    ($r:expr, $f:ident, $($rest:ident),+) => { if kani::any() { $f($r) } else { choose!($r, $($rest),+) } };
+}
+pub(crate) use choose;
+
+/// fixed-width reads: on success the reader has advanced by exactly k bytes inside the section, on failure it has not
+/// moved and the error names the position (values are K-PRIM's business).
+macro_rules! reads_position {
+    ($name:ident, $($f:ident),+) => {
+        #[kani::proof]
+        #[kani::unwind(20)]
+        fn $name() {
+            let data: [u8; L] = kani::any();
+            let base = EndianSlice::new(&data[..], any_endian());
+            let (s, n) = any_window(L);
+            let mut r = base.range(s..s + n);
+            let (ok, k, err): Rd = choose!(&mut r, $($f),+);
+            assert!(ok == (k <= n));
+            if ok {
+                at(&r, &base, s + k, n - k);
+            } else {
+                assert!(eof_at(err.unwrap(), &base, s));
+                at(&r, &base, s, n);
+            }
+        }
+    };
+}
+reads_position!(k_eslice_reads_position_8_16, rd_u8, rd_i8, rd_u16, rd_i16, rd_array3, rd_addr_size);
+reads_position!(k_eslice_reads_position_32_64, rd_u32, rd_i32, rd_u64, rd_i64, rd_f32, rd_f64);
+reads_position!(k_eslice_reads_position_word, rd_off32, rd_off64, rd_len32, rd_len64, rd_word32, rd_word64);
+reads_position!(k_eslice_reads_position_uint, rd_uint);
+
+/// sized reads (`read_address`, `read_sized_offset`) for EVERY size byte: unsupported sizes are rejected without
+/// consuming, supported ones advance by exactly `size`
 #[kani::proof]
 #[kani::unwind(20)]
-fn k_eslice_reads_position() {
+fn k_eslice_sized_reads_position() {
     let data: [u8; L] = kani::any();
     let base = EndianSlice::new(&data[..], any_endian());
     let (s, n) = any_window(L);
     let mut r = base.range(s..s + n);
-    let op: u8 = kani::any();
     let size: u8 = kani::any();
     let sized = size == 1 || size == 2 || size == 4 || size == 8;
-    // (result ok?, bytes the operation needs)
-    let (ok, k, err): (bool, usize, Option<Error>) = match op {
-        0 => { let x = r.read_u8(); (x.is_ok(), 1, x.err()) }
-        1 => { let x = r.read_i8(); (x.is_ok(), 1, x.err()) }
-        2 => { let x = r.read_u16(); (x.is_ok(), 2, x.err()) }
-        3 => { let x = r.read_i16(); (x.is_ok(), 2, x.err()) }
-        4 => { let x = r.read_u32(); (x.is_ok(), 4, x.err()) }
-        5 => { let x = r.read_i32(); (x.is_ok(), 4, x.err()) }
-        6 => { let x = r.read_u64(); (x.is_ok(), 8, x.err()) }
-        7 => { let x = r.read_i64(); (x.is_ok(), 8, x.err()) }
-        8 => {
-            kani::assume(1 <= size && size <= 8);
-            let x = r.read_uint(size as usize);
-            (x.is_ok(), size as usize, x.err())
+    let (ok, err) = if kani::any() {
+        let x = r.read_address(size);
+        if !sized {
+            assert!(x == Err(Error::UnsupportedAddressSize(size)));
         }
-        9 => {
-            let x = r.read_address(size);
-            if !sized {
-                assert!(x == Err(Error::UnsupportedAddressSize(size)));
-                at(&r, &base, s, n);
-                return;
-            }
-            (x.is_ok(), size as usize, x.err())
+        (x.is_ok(), x.err())
+    } else {
+        let x = r.read_sized_offset(size);
+        if !sized {
+            assert!(x == Err(Error::UnsupportedOffsetSize(size)));
         }
-        10 => {
-            let x = r.read_sized_offset(size);
-            if !sized {
-                assert!(x == Err(Error::UnsupportedOffsetSize(size)));
-                at(&r, &base, s, n);
-                return;
-            }
-            (x.is_ok(), size as usize, x.err())
-        }
-        11 => { let x = r.read_offset(Format::Dwarf32); (x.is_ok(), 4, x.err()) }
-        12 => { let x = r.read_offset(Format::Dwarf64); (x.is_ok(), 8, x.err()) }
-        13 => { let x = r.read_length(Format::Dwarf32); (x.is_ok(), 4, x.err()) }
-        14 => { let x = r.read_word(Format::Dwarf64); (x.is_ok(), 8, x.err()) }
-        15 => {
-            // read_slice(buf): buf.len() symbolic in 0..=9
-            let mut buf = [0u8; 9];
-            let k: usize = kani::any();
-            kani::assume(k <= 9);
-            let x = r.read_slice(&mut buf[..k]);
-            if x.is_ok() {
-                assert!(buf[..k] == data[s..s + k]);
-            }
-            (x.is_ok(), k, x.err())
-        }
-        _ => {
-            // read_u8_array::<[u8; 3]> (the primitive behind every default integer read)
-            let x = r.read_u8_array::<[u8; 3]>();
-            if let Ok(a) = &x {
-                assert!(a[..] == data[s..s + 3]);
-            }
-            (x.is_ok(), 3, x.err())
-        }
+        (x.is_ok(), x.err())
     };
-    assert!(ok == (k <= n));
+    let k = size as usize;
+    assert!(ok == (sized && k <= n));
     if ok {
         at(&r, &base, s + k, n - k);
     } else {
-        assert!(eof_at(err.unwrap(), &base, s));
+        if sized {
+            assert!(eof_at(err.unwrap(), &base, s));
+        }
         at(&r, &base, s, n);
+    }
+}
+
+/// `read_slice(buf)`: copies exactly the next `buf.len()` bytes of the window and advances by that much
+#[kani::proof]
+#[kani::unwind(20)]
+fn k_eslice_read_slice_position() {
+    let data: [u8; L] = kani::any();
+    let base = EndianSlice::new(&data[..], any_endian());
+    let (s, n) = any_window(L);
+    let mut r = base.range(s..s + n);
+    let mut buf = [0u8; 9];
+    let k: usize = kani::any();
+    kani::assume(k <= 9);
+    let j: usize = kani::any();
+    match r.read_slice(&mut buf[..k]) {
+        Ok(()) => {
+            assert!(k <= n);
+            assert!(j >= k || buf[j] == data[s + j]);
+            at(&r, &base, s + k, n - k);
+        }
+        Err(e) => {
+            assert!(k > n);
+            assert!(eof_at(e, &base, s));
+            at(&r, &base, s, n);
+        }
     }
 }
 
@@ -271,38 +320,34 @@ fn k_eslice_initial_length_position() {
 }
 
 /// LEB128 reads: the universal parser frame (`within`): only the start moves, forward, the end stays; on success the
-/// start has moved just past the terminating byte
-#[kani::proof]
-#[kani::unwind(20)]
-fn k_eslice_leb_position() {
-    let data: [u8; L] = kani::any();
-    let base = EndianSlice::new(&data[..], any_endian());
-    let (s, n) = any_window(L);
-    let mut r = base.range(s..s + n);
-    let op: u8 = kani::any();
-    let ok = match op {
-        0 => r.read_uleb128().is_ok(),
-        1 => r.read_sleb128().is_ok(),
-        2 => r.skip_leb128().is_ok(),
-        3 => r.read_uleb128_u16().is_ok(),
-        _ => r.read_uleb128_u32().is_ok(),
-    };
-    let off = Reader::offset_from(&r, &base);
-    assert!(s <= off && off + r.len() == s + n);
-    assert!(r.slice().as_ptr() == base.slice().as_ptr().wrapping_add(off));
-    if ok {
-        assert!(off > s);
-        assert!(data[off - 1] & 0x80 == 0);
-        if op <= 2 || op == 4 {
-            // (read_uleb128_u16 stops after at most 3 bytes by construction; the others stop at the first terminator)
-            let mut i = s;
-            while i < off - 1 {
-                assert!(data[i] & 0x80 != 0);
-                i += 1;
+/// start has moved just past the FIRST terminating byte (values: K-LEB)
+macro_rules! leb_position {
+    ($name:ident, |$r:ident| $e:expr) => {
+        #[kani::proof]
+        #[kani::unwind(20)]
+        fn $name() {
+            let data: [u8; L] = kani::any();
+            let base = EndianSlice::new(&data[..], any_endian());
+            let (s, n) = any_window(L);
+            let mut r = base.range(s..s + n);
+            let ok = { let $r = &mut r; $e }.is_ok();
+            let off = Reader::offset_from(&r, &base);
+            assert!(s <= off && off + r.len() == s + n);
+            assert!(r.slice().as_ptr() == base.slice().as_ptr().wrapping_add(off));
+            if ok {
+                assert!(off > s);
+                assert!(data[off - 1] & 0x80 == 0);
+                // every earlier byte is a continuation byte (j arbitrary)
+                let j: usize = kani::any();
+                assert!(!(s <= j && j < off - 1) || data[j] & 0x80 != 0);
             }
         }
-    }
+    };
 }
+leb_position!(k_eslice_leb_position_uleb, |r| r.read_uleb128());
+leb_position!(k_eslice_leb_position_sleb, |r| r.read_sleb128());
+leb_position!(k_eslice_leb_position_skip, |r| r.skip_leb128());
+leb_position!(k_eslice_leb_position_u16, |r| r.read_uleb128_u16());
 
 /// offset ids: an id obtained at ANY position of the section maps back to that position through the section reader,
 /// and through any other window iff the position lies in it (inclusive end)
@@ -361,7 +406,6 @@ fn k_eslice_find() {
     let r = base.range(s..s + n);
     let b: u8 = kani::any();
     let j: usize = kani::any();
-    kani::assume(j < n);
     match Reader::find(&r, b) {
         Ok(i) => {
             assert!(i < n && data[s + i] == b);
@@ -370,7 +414,7 @@ fn k_eslice_find() {
             assert!(EndianSlice::find(&r, b) == Some(i));
         }
         Err(e) => {
-            assert!(data[s + j] != b);
+            assert!(!(j < n && data[s + j] == b));
             assert!(eof_at(e, &base, s));
             assert!(EndianSlice::find(&r, b).is_none());
         }
@@ -387,7 +431,6 @@ fn k_eslice_null_terminated() {
     let (s, n) = any_window(L);
     let mut r = base.range(s..s + n);
     let j: usize = kani::any();
-    kani::assume(j < n);
     match r.read_null_terminated_slice() {
         Ok(t) => {
             let i = t.len();
@@ -397,7 +440,7 @@ fn k_eslice_null_terminated() {
             at(&r, &base, s + i + 1, n - i - 1);
         }
         Err(e) => {
-            assert!(data[s + j] != 0);
+            assert!(!(j < n && data[s + j] == 0));
             assert!(eof_at(e, &base, s));
             at(&r, &base, s, n);
         }
